@@ -83,9 +83,9 @@ func h264SPS(wMB, hMB int, level int, fpsNum, fpsDen uint32) []byte {
 	w.bits(1, 1) // direct_8x8
 	w.bits(0, 1) // cropping
 	if fpsNum != 0 {
-		w.bits(1, 1) // vui present
-		w.bits(0, 4) // aspect, overscan, video signal, chroma loc
-		w.bits(1, 1) // timing info present
+		w.bits(1, 1)                 // vui present
+		w.bits(0, 4)                 // aspect, overscan, video signal, chroma loc
+		w.bits(1, 1)                 // timing info present
 		w.bits(uint64(fpsDen), 32)   // num_units_in_tick
 		w.bits(uint64(fpsNum)*2, 32) // time_scale
 		w.bits(1, 1)                 // fixed frame rate
@@ -132,10 +132,10 @@ type videoParams struct {
 	// H265
 	vps []byte
 	// VP9
-	vp9W, vp9H  int
-	vp9Profile  uint8
-	vp9Range    bool
-	vp9SubX     bool // profile 1: 4:4:4 if false
+	vp9W, vp9H int
+	vp9Profile uint8
+	vp9Range   bool
+	vp9SubX    bool // profile 1: 4:4:4 if false
 	// AV1
 	seqHdr []byte
 	desc   string
@@ -288,7 +288,7 @@ type unit struct {
 	ra      bool
 	data    [][]byte // what is passed to Write* (video: NALUs/OBUs/frame; audio: the single AU)
 	params  *videoParams
-	carries bool // carries in-band parameter sets
+	carries bool   // carries in-band parameter sets
 	payload []byte // expected container payload (fMP4 sample payload)
 }
 
